@@ -486,11 +486,26 @@ def last_field(p):
     return None
 
 
+def _normalise_consts(j):
+    """the extractor writes integers beyond i64 as decimal strings: turn every such `val` back into an int"""
+    st = [j]
+    while st:
+        x = st.pop()
+        if isinstance(x, dict):
+            v = x.get("val")
+            if isinstance(v, str) and v.lstrip("-").isdigit():
+                x["val"] = int(v)
+            st.extend(x.values())
+        elif isinstance(x, list):
+            st.extend(x)
+
+
 class Facts:
     def __init__(self, path):
         self.path = path
         with open(path) as f:
             self.j = json.load(f)
+        _normalise_consts(self.j)
         self.header = self.j["header"]
         self.cfg = self.header["cfg"]
         self.bodies = {}
